@@ -628,6 +628,13 @@ class SaintVenantKirchhoff(_HyperElastic):
 # ----------------------------------------------
 
 
+class _DirectionParameter(_params.VectorParameter):
+    """direction(s) stored with unit length, as the invariants I4, I6 and I8 expect them."""
+
+    def __set__(self, instance, value):
+        super().__set__(instance, Normalize(value))
+
+
 class HolzapfelOgden(_HyperElastic):
 
     C0: float = _params.PositiveScalarParameter()
@@ -645,9 +652,9 @@ class HolzapfelOgden(_HyperElastic):
     Mu1: float = _params.PositiveScalarParameter()
     Mu2: float = _params.PositiveScalarParameter()
 
-    T1 = _params.VectorParameter()
+    T1 = _DirectionParameter()
     """direction(s) 1, used for the invariants I4 and I8"""
-    T2 = _params.VectorParameter()
+    T2 = _DirectionParameter()
     """direction(s) 2, used for the invariants I6 and I8"""
 
     __ks: float = _params.PositiveScalarParameter()
@@ -727,8 +734,8 @@ class HolzapfelOgden(_HyperElastic):
         self.Mu1 = Mu1
         self.Mu2 = Mu2
 
-        self.T1 = Normalize(T1)
-        self.T2 = Normalize(T2)
+        self.T1 = T1
+        self.T2 = T2
 
         self.__ks = ks
 
